@@ -185,8 +185,10 @@ Definition delivered_okb (i : input) (r : result) (t : list event) : bool :=
   let ds := set_of dl in
   listN_eqb dl (if i_shard i then dedupF (cids_of (i_stream i)) else cids_of (i_stream i))
   && forallb (fun x => match x with (_, ds, j) => existsb (fun d => negb (is_err (e_put e j d))) ds end) ps
-  && memS (i_root i) ds
-  && forallb (fun b => forallb (fun l => memS l ds) (blinks b)) (i_stream i)
+  (* closure, under the importer's contract: what the stream contains and links must have been delivered *)
+  && (let ss := set_of (cids_of (i_stream i)) in
+      (negb (memS (i_root i) ss) || memS (i_root i) ds)
+      && forallb (fun b => forallb (fun l => negb (memS l ss) || memS l ds) (blinks b)) (i_stream i))
   && (if i_shard i then
         forallb (fun p => match pty p with
                           | TClusterDAG | TShard => forallb (fun n => existsb (fun x => cid_eqb n (fst (fst x))) ps) (subnodes (pcid p))
@@ -266,7 +268,11 @@ Definition final_pins_okb (i : input) (r : result) (t : list event) : bool :=
              && ocid_eqb (pref p) None && Z.eqb (prmin p) (i_rmin i) && Z.eqb (prmax p) (i_rmax i) && N.eqb (pssize p) (i_limit i)
              && (if i_local i then
                    forallb (fun x => listN_eqb (snd (fst x)) [0]) (puts_from 0 t)
-                   && (if ew then listN_eqb (pallocs p) [] else olist_eqb (Some (pallocs p)) (alloc_lookup (i_allocs i) 0))
+                   && (if ew then listN_eqb (pallocs p) []
+                       else match i_stream i with
+                            | [] => listN_eqb (pallocs p) []        (* nothing was added: no allocation was asked for *)
+                            | _ => olist_eqb (Some (pallocs p)) (alloc_lookup (i_allocs i) 0)
+                            end)
                  else allocs_walk ew [] t)
     | _ => false
     end.
@@ -286,8 +292,18 @@ Definition result_of (tbl : list (N * list N)) (o : ores) : result :=
 (* flags: numbers (>= 20) of the Go-side differential checks of the real-file-tree part that failed (see docs/C13.md) *)
 Definition case := (N * (input * (ores * list oevent * list (N * list N)) * list N))%type.
 
-(* known finding 1 (shape): the importer went on after DAGService.Add returned an error for some block *)
-Definition is_swallow (i : input) : bool := existsb bswallow (i_stream i).
+(* known finding 1 (shape): the importer went on after DAGService.Add returned an error for a block that a LATER
+   block links as its FIRST child (go-unixfs balanced.Layout: `newRoot.AddChild(root, ...)` ignores the error when the
+   old root - the first leaf, or a full node - becomes the first child of the next level). Any other swallowed error
+   (a different block, an adder that ignores errors) is not this finding. *)
+Fixpoint swallow_shape (bs : list block) : bool :=
+  match bs with
+  | [] => true
+  | b :: r => (if bswallow b
+               then existsb (fun p => match blinks p with l :: _ :: _ => N.eqb l (bcid b) | _ => false end) r
+               else true) && swallow_shape r
+  end.
+Definition is_swallow (i : input) : bool := existsb bswallow (i_stream i) && swallow_shape (i_stream i).
 
 Definition check_case (c : case) : list (N * N * N) :=
   let '(id, (i, (o, os, tbl), flags)) := c in
